@@ -87,7 +87,7 @@ func runC12(c *core.Ctx) {
 			}
 			for who, sg := range map[string]struct {
 				n, e, tz string
-				s       int64
+				s        int64
 			}{"author": {cm.Author.Name, cm.Author.Email, cm.Author.TZ, cm.Author.Secs}, "committer": {cm.Committer.Name, cm.Committer.Email, cm.Committer.TZ, cm.Committer.Secs}} {
 				if sg.n != name || sg.e != email || sg.tz != tzs {
 					w.Fail("C12.cli-author-line", "line-differs", trig, "%s line is %q <%s> … %s; expected %q <%s> … %s", who, sg.n, sg.e, sg.tz, name, email, tzs)
@@ -141,15 +141,15 @@ func offClass(off int) string {
 
 func init() {
 	register(&Prop{ID: "C06", Level: "exploration", NeedIn: true,
-		Rule: "(a) in-process, exhaustive over a sub-space: every conflict-free subset P (|P|<=3 quick, <=4 thorough) of a 34-path universe built around the byte order of '/' and regexp metacharacters, inserted through the real Index.Update in seeded random order, then reloaded; for every query q in the universe, its directory prefixes and single components: GetEntry found <=> q in P, IsRegisteredAsDirectory <=> some path beneath q/, GetEntriesByDirectory == the paths beneath q/, no panic; the written file must decode (independent decoder) to exactly P in strictly ascending order; (b) CLI: after every command that rewrites .goit/index the file is decoded and checked for canonical form and against ls-files; sampled P: rm/restore/add on every tracked path, tracked directory and near-miss name select exactly the tracked paths beneath; distinct = (P, q) pairs with a non-trivial expected answer + CLI classes",
-		Mons:  func() []core.Monitor { return []core.Monitor{C06Mon{}} },
-		Run:   runC06,
+		Rule:   "(a) in-process, exhaustive over a sub-space: every conflict-free subset P (|P|<=3 quick, <=4 thorough) of a 34-path universe built around the byte order of '/' and regexp metacharacters, inserted through the real Index.Update in seeded random order, then reloaded; for every query q in the universe, its directory prefixes and single components: GetEntry found <=> q in P, IsRegisteredAsDirectory <=> some path beneath q/, GetEntriesByDirectory == the paths beneath q/, no panic; the written file must decode (independent decoder) to exactly P in strictly ascending order; (b) CLI: after every command that rewrites .goit/index the file is decoded and checked for canonical form and against ls-files; sampled P: rm/restore/add on every tracked path, tracked directory and near-miss name select exactly the tracked paths beneath; distinct = (P, q) pairs with a non-trivial expected answer + CLI classes",
+		Mons:   func() []core.Monitor { return []core.Monitor{C06Mon{}} },
+		Run:    runC06,
 		Floors: []core.Floor{{Key: "C06.getentry", Min: 100000}, {Key: "C06.cli-addressable", Min: 300}, {Key: "C06.file-canonical", Min: 1000}},
 	})
 	register(&Prop{ID: "C12", Level: "exploration", NeedIn: true,
-		Rule: "(a) in-process: all 105 quarter-hour offsets in [-12:00,+14:00] x instants {0,1,59,86399,1e9,2^31-1,2^31,2^32,253402300799, seeded random} x names x e-mails x message classes: Sign.String() has the Git form with the right digits, NewCommit accepts the commit and returns the same name, e-mail, Unix seconds, zone offset and message; (b) CLI: add+commit under TZ=<synthetic TZif file> for 27+ offsets (quick: every non-whole-hour offset, both extremes, some whole hours; thorough: all 105), also with the clock pinned (VERIF_NOW) at boundary instants through the vfs-rewritten binary; stored author/committer lines, cat-file -p and log -n 1 must agree; distinct = (offset, instant class, message class)",
-		Mons:  func() []core.Monitor { return []core.Monitor{C12Mon{}} },
-		Run:   runC12,
+		Rule:   "(a) in-process: all 105 quarter-hour offsets in [-12:00,+14:00] x instants {0,1,59,86399,1e9,2^31-1,2^31,2^32,253402300799, seeded random} x names x e-mails x message classes: Sign.String() has the Git form with the right digits, NewCommit accepts the commit and returns the same name, e-mail, Unix seconds, zone offset and message; (b) CLI: add+commit under TZ=<synthetic TZif file> for 27+ offsets (quick: every non-whole-hour offset, both extremes, some whole hours; thorough: all 105), also with the clock pinned (VERIF_NOW) at boundary instants through the vfs-rewritten binary; stored author/committer lines, cat-file -p and log -n 1 must agree; distinct = (offset, instant class, message class)",
+		Mons:   func() []core.Monitor { return []core.Monitor{C12Mon{}} },
+		Run:    runC12,
 		Floors: []core.Floor{{Key: "C12.sign-roundtrip", Min: 1500}, {Key: "C12.cli-commit-exit", Min: 50}},
 	})
 }
